@@ -36,6 +36,7 @@ Definition ev_ok (pc : wpiece) (e : event) : Prop :=
   | EMut _ false => True
   | ERead _ _ _ _ => True
   | EProbe _ _ _ => False
+  | EMkPartial p made => path_prefix made p = true /\ good_op content pc (MkdirAll p)
   end.
 
 Lemma op_prefix_good pc o' o : op_prefix o' o = true -> good_op content pc o -> good_cut content pc o'.
@@ -58,12 +59,17 @@ Theorem walk_good pc : forall pg, good content pc pg -> forall evs n,
 Proof.
   induction 1 as [o Ho|p off len k Hk IH|o k Hop Hk IH|i k Hk IH|i k Hk IH]; intros evs n; cbn [walk].
   - destruct evs; [split; [constructor|exact Ho]|exact I].
-  - destruct evs as [|[| p' off' len' r |] rest]; try exact I; [constructor|].
+  - destruct evs as [|[| p' off' len' r | |] rest]; try exact I; [constructor|].
     destruct (read_matches p off len p' off' r); [|exact I].
     specialize (IH r rest (S n)). destruct (walk (k r) rest (S n)); try exact I.
     + destruct IH as [IH1 IH2]. split; [constructor; [exact I|exact IH1]|exact IH2].
     + constructor; [exact I|exact IH].
-  - destruct evs as [|[| | o' ok] rest]; try exact I; [constructor|].
+  - destruct evs as [|[| | o' ok|p' made] rest]; try exact I; [constructor| |].
+    2: { destruct o as [p0| | |]; try exact I. destruct (path_eqb p0 p' && path_prefix made p0) eqn:Ep; [|exact I].
+         apply andb_true_iff in Ep. destruct Ep as [E1 E2]. apply path_eqb_eq in E1. subst p'.
+         specialize (IH false rest (S n)). destruct (walk (k false) rest (S n)); try exact I.
+         - destruct IH as [IH1 IH2]. split; [constructor; [split; assumption|assumption]|assumption].
+         - constructor; [split; assumption|assumption]. }
     assert (Hgen : match (if (if ok then op_eqb o o' else op_same_target o o') then walk (k ok) rest (S n) else WMismatch n) with
                    | WDone o0 => Forall (ev_ok pc) (EMut o' ok :: rest) /\ o0 <> PanicO
                    | WCut => Forall (ev_ok pc) (EMut o' ok :: rest)
